@@ -6,8 +6,8 @@ FUN = ['FIX8::rothash (include/fix8/f8utils.hpp)', "f8c group_hash fold (compile
        'replay: compiler/f8c (parse_groups, find_group, generate_group_bodies), generated classes, Message::factory/decode/encode']
 LO = 200   # member tags start above the header/trailer/standard fields of the replay schema
 
-def schema(A, B, An=None, Bn=None, cnt=10000):
-    tags = sorted(set(A + B + (An[1] if An else []) + (Bn[1] if Bn else [])))
+def schema(A, B, An=None, Bn=None, cnt=10000, C=None):
+    tags = sorted(set(A + B + (C or []) + (An[1] if An else []) + (Bn[1] if Bn else [])))
     def grp(M, N):
         s = "   <group name='NoG' required='N'>\n"
         for i, t in enumerate(M):
@@ -19,13 +19,14 @@ def schema(A, B, An=None, Bn=None, cnt=10000):
     for n in ('BeginString', 'BodyLength', 'MsgType', 'SenderCompID', 'TargetCompID', 'MsgSeqNum', 'SendingTime'): x += "  <field name='%s' required='Y' />\n" % n
     x += " </header>\n <messages>\n  <message name='Heartbeat' msgcat='admin' msgtype='0'>\n   <field name='TestReqID' required='N' />\n  </message>\n"
     x += "  <message name='MsgA' msgcat='app' msgtype='UA'>\n   <field name='Text' required='N' />\n" + grp(A, An) + "  </message>\n"
+    if C: x += "  <message name='MsgC' msgcat='app' msgtype='UC'>\n   <field name='Text' required='N' />\n" + grp(C, None) + "  </message>\n"      # parsed between A and B
     x += "  <message name='MsgB' msgcat='app' msgtype='UB'>\n   <field name='Text' required='N' />\n" + grp(B, Bn) + "  </message>\n"
     x += " </messages>\n <trailer>\n  <field name='CheckSum' required='Y' />\n </trailer>\n <fields>\n"
     std = [(8, 'BeginString', 'STRING'), (9, 'BodyLength', 'LENGTH'), (10, 'CheckSum', 'STRING'), (34, 'MsgSeqNum', 'SEQNUM'), (35, 'MsgType', 'STRING'), (49, 'SenderCompID', 'STRING'),
            (52, 'SendingTime', 'UTCTIMESTAMP'), (56, 'TargetCompID', 'STRING'), (58, 'Text', 'STRING'), (112, 'TestReqID', 'STRING')]
     gtags = set(([A[An[0]]] if An else []) + ([B[Bn[0]]] if Bn else []))
     for n, nm, ty in std:
-        if n == 35: x += "  <field number='35' name='MsgType' type='STRING'>\n   <value enum='0' description='HEARTBEAT' />\n   <value enum='UA' description='MSGA' />\n   <value enum='UB' description='MSGB' />\n  </field>\n"
+        if n == 35: x += "  <field number='35' name='MsgType' type='STRING'>\n   <value enum='0' description='HEARTBEAT' />\n   <value enum='UA' description='MSGA' />\n   <value enum='UB' description='MSGB' />\n   <value enum='UC' description='MSGC' />\n  </field>\n"
         else: x += "  <field number='%d' name='%s' type='%s' />\n" % (n, nm, ty)
     for t in tags: x += "  <field number='%d' name='F%d' type='%s' />\n" % (t, t, 'NUMINGROUP' if t in gtags else 'STRING')
     return x + "  <field number='%d' name='NoG' type='NUMINGROUP' />\n </fields>\n</fix>\n" % cnt
@@ -50,7 +51,8 @@ def run(ctx):
     shapes = [('C14_key_2members', ['SHAPE_N=2'], 'quick', 'two definitions of exactly 2 member fields each'),
               ('C14_key_3members', ['SHAPE_N=3'], 'quick', 'two definitions of exactly 3 member fields each'),
               ('C14_key_any', [], 'quick', 'two definitions of 1..3 member fields each'),
-              ('C14_key_nested', ['NEST=1'], 'quick', 'two definitions of 1..3 member fields, at most one of them a nested group of 1..3 member fields')]
+              ('C14_key_nested', ['NEST=1'], 'quick', 'two definitions of 1..3 member fields, at most one of them a nested group of 1..3 member fields'),
+              ('C14_key_chain', ['CHAIN'], 'quick', 'three definitions of 2 member fields: two with the same key h and a third with key h+2 (replayed in the parse order A, C, B)')]
     for nm, d, tier, b in shapes:
         ctx.add(Harness(nm, H, defines=defs + d + ['TLO=%d' % LO], unwind=5, timeout=600, functions=FUN[:2], tier=tier,
                         bounds=b + '; tags %d..9999; same count field' % LO, desc='injectivity of the sharing key (a counterexample is a pair of colliding definitions)'))
@@ -63,9 +65,9 @@ def run(ctx):
     nrep = 0
     for h in ctx.harnesses:
         for fl in (h.result or {}).get('failed', []):
-            if 'sharing key' not in (fl.get('desc') or ''):
+            if 'sharing key' not in (fl.get('desc') or '') and 'sharing keys' not in (fl.get('desc') or ''):
                 ctx.spurious.append(dict(harness=h.name, desc=fl['desc'], cx=fl['cx'], why='not a key collision')); ctx.say('INCONCLUSIVE %s: %s' % (h.name, fl['desc'])); continue
-            if ctx.tier == 'quick' and nrep >= 1 and not os.environ.get('C14_REPLAY_ALL'):
+            if ctx.tier == 'quick' and nrep >= 1 and 'chain' not in h.name and not os.environ.get('C14_REPLAY_ALL'):
                 ok, what = cached_only(ctx, fl['cx'])
                 if ok is None: ctx.say('  (%s: collision %s not replayed in the quick tier)' % (h.name, defs_of(fl['cx']))); continue
             else:
@@ -88,7 +90,7 @@ def core_classify(expr, cx):
 
 def _key(ctx, c):
     (a, an), (b, bn) = defs_of(c)
-    return file_hash(repo_hash(), VERIF + '/replay/c14_rt.cpp', json.dumps([a, an, b, bn]))
+    return file_hash(repo_hash(), VERIF + '/replay/c14_rt.cpp', json.dumps([a, an, b, bn, c.get('cx_ct'), c.get('cx_cn')]))
 
 def cached_only(ctx, cx):
     p = os.path.join(CACHE, 'c14_rt_%s.json' % _key(ctx, cx.get('cx', cx)))
@@ -103,17 +105,19 @@ def replay(ctx, cx, h=None):
     if ok is not None: return ok, what
     (a, an), (b, bn) = defs_of(c)
     if not a or not b: return False, 'no definitions in counterexample'
+    third = [int(v) for v in (c.get('cx_ct') or [])][:int(c.get('cx_cn', 0))] or None
     d = os.path.join(ctx.work, 'c14rt_%s' % _key(ctx, c)); os.makedirs(d, exist_ok=True)
-    open(d + '/mini.xml', 'w').write(schema(a, b, an, bn))
-    r = sh([REPO + '/compiler/f8c', '-p', 'c14', '-n', 'C14', 'mini.xml'], cwd=d)
+    open(d + '/mini.xml', 'w').write(schema(a, b, an, bn, C=third))
+    libd = repo_libs(ctx.say)       # f8c and libfix8 built from the CURRENT sources (never /repo's own build output)
+    r = sh([libd + '/f8c', '-p', 'c14', '-n', 'C14', 'mini.xml'], cwd=d, env=dict(os.environ, LD_LIBRARY_PATH=libd + ':' + os.environ.get('LD_LIBRARY_PATH', '')))
     if r.returncode != 0 or not os.path.exists(d + '/c14_classes.cpp'): raise Broken('f8c failed on the replay schema: ' + r.stdout[-400:])
     shared = 'shares static data' in open(d + '/c14_classes.hpp').read()
     r = sh(['g++', '-std=gnu++17', '-O0', '-w', '-I' + REPO + '/include', '-I' + REPO, '-I.', VERIF + '/replay/c14_rt.cpp', 'c14_classes.cpp', 'c14_traits.cpp', 'c14_types.cpp', '-o', 'rt',
-            '-L' + REPO + '/runtime/.libs', '-lfix8', '-Wl,-rpath,' + REPO + '/runtime/.libs', '-lPocoNet', '-lPocoUtil', '-lPocoFoundation', '-lpthread'], cwd=d)
+            '-L' + libd, '-lfix8', '-Wl,-rpath,' + libd, '-lPocoNet', '-lPocoUtil', '-lPocoFoundation', '-lpthread'], cwd=d)
     if r.returncode != 0: raise Broken('generated code does not compile: ' + r.stdout[-600:])
     def arg(t, n): return [','.join(map(str, t))], (['%d:%s' % (n[0], ','.join(map(str, n[1])))] if n else ['-'])
     (ta, na), (tb, nb) = arg(a, an), arg(b, bn)
-    r = sh([d + '/rt'] + ta + tb + na + nb, cwd=d)
+    r = sh([d + '/rt'] + ta + tb + na + nb + ([','.join(map(str, third))] if third else []), cwd=d)
     ok = r.returncode == 1
     what = ('f8c: %s; ' % ('shares static data' if shared else 'separate metadata')) + ' | '.join(l for l in r.stdout.strip().splitlines() if l.startswith('C14'))[-350:]
     if r.returncode in (0, 1): json.dump(dict(ok=ok, what=what), open(os.path.join(CACHE, 'c14_rt_%s.json' % _key(ctx, c)), 'w'))
